@@ -23,7 +23,7 @@ ASSUMPTIONS = [
     'class-level metadata changes reaching (or not) already copied per-instance Parameters is not judged (statement is silent)',
     'parameters declared per_instance=False are exempt from the metadata-isolation clause (they opted out)',
 ]
-REQUIRED = {'view_checks': 20000, 'instances': 1000, 'class_sets': 500, 'metadata_edits': 500, 'inplace_mutations': 500, 'instance_updates': 200,
+REQUIRED = {'composite_ops': 60, 'view_checks': 20000, 'instances': 1000, 'class_sets': 500, 'metadata_edits': 500, 'inplace_mutations': 500, 'instance_updates': 200,
             'falsy_instance_cases': 100, 'ctor_pending_references': 50, 'shared_blocks': 30}
 
 _st = {}
@@ -149,8 +149,62 @@ META = {'esel': ['objects', 'doc'], 'gen': ['step', 'doc'], 'num': ['bounds', 's
         'dict': ['doc'], 'tuple': ['doc', 'precedence'], 'tok': ['doc']}
 
 
+def composite_case(idx, rng, P, rep):
+    """A Composite parameter is a view on other parameters: assigning it through a subclass or an instance changes what that
+    subclass / instance sees, nothing else."""
+    param = _st['param']
+    A = type(f'CA{idx}', (param.Parameterized,), dict(x=param.Number(default=1.0), y=param.Number(default=2.0),
+                                                     xy=param.Composite(attribs=['x', 'y'])))
+    B = type(f'CB{idx}', (A,), {})
+    C = type(f'CC{idx}', (B,), {})
+    model = {A: [1.0, 2.0], B: None, C: None}      # None: follows its parent
+    insts = []
+
+    def view(K):
+        for k in K.__mro__:
+            if model.get(k) is not None:
+                return model[k]
+
+    ops = []
+    for step in range(rng.randint(3, 8)):
+        c = rng.random()
+        v = [float(tokn()), float(tokn())]
+        if c < 0.45:
+            K = rng.choice([A, B, C])
+            ops.append(('class-set', K.__name__))
+            K.xy = v
+            model[K] = v
+        elif c < 0.7 or not insts:
+            K = rng.choice([A, B, C])
+            o = K()
+            insts.append([o, K, None])
+            ops.append(('new', K.__name__))
+        else:
+            rec = rng.choice(insts)
+            ops.append(('inst-set', rec[1].__name__))
+            rec[0].xy = v
+            rec[2] = v
+        rep.count('composite_ops')
+        for K in (A, B, C):
+            if [K.x, K.y] != view(K) or K.xy != view(K):
+                rep.violation('C12/composite/class-view', f'after {ops[-1]}: {K.__name__} shows x,y={[K.x, K.y]} xy={K.xy}, expected {view(K)}',
+                              case=dict(kind='composite', ops=ops))
+                rep.case(('composite', tuple(o_[0] for o_ in ops)), True)
+                return
+        for o, K, own in insts:
+            exp = own if own is not None else view(K)
+            if [o.x, o.y] != exp or o.xy != exp:
+                rep.violation('C12/composite/instance-view', f'after {ops[-1]}: an instance of {K.__name__} shows x,y={[o.x, o.y]} xy={o.xy}, '
+                              f'expected {exp} ({"own" if own is not None else "follows class"})', case=dict(kind='composite', ops=ops))
+                rep.case(('composite', tuple(o_[0] for o_ in ops)), True)
+                return
+    rep.case(('composite', tuple(o_[0] for o_ in ops)), True)
+
+
 def run_case(idx, rng, P, rep):
     param = _st['param']
+    if rng.random() < 0.04:
+        return composite_case(idx, rng, P, rep)
     # ---- hierarchy (chain, optionally a sibling)
     depth = rng.randint(1, 3)
     names = rng.sample(TEMPLATES, rng.randint(3, 5))
@@ -495,10 +549,24 @@ def run_case(idx, rng, P, rep):
             sp = specs[p]
             a = rng.choice([x for x in META[sp['kind']] if x != 'objects'] or ['doc'])
             t = tokn()
+            pobj = classes[ci].param[p]
+            others = [K for K in classes if K.param[p] is not pobj]
+            if 'objects' in META[sp['kind']] and others and rng.random() < 0.6:
+                # the class has a Parameter object of its own (declared, or copied when the class was assigned to): an
+                # in-place edit of its objects is not seen by classes governed by another Parameter object
+                a = 'objects'
             kinds.append('class_meta')
             trace.append(('class_meta', classes[ci].__name__, p, a))
-            pobj = classes[ci].param[p]
-            if a == 'bounds':
+            if a == 'objects':
+                seen = [list(K.param[p].objects) for K in others]
+                pobj.objects.append(('co', t))
+                rep.count('class_level_objects_edits')
+                for K, b in zip(others, seen):
+                    if list(K.param[p].objects) != b:
+                        viol('class-metadata-leaked-to-other-class', f'{classes[ci].__name__}.param.{p}.objects.append(...) changed the objects of '
+                             f'{K.__name__}, which has a Parameter object of its own: {b!r} -> {list(K.param[p].objects)!r}')
+                        break
+            elif a == 'bounds':
                 pobj.bounds = (-t, t)
             elif a == 'step':
                 pobj.step = t
